@@ -5,6 +5,7 @@
 //! from `/repo`'s working tree, observes at the public boundary and decides with an independent
 //! oracle. This library holds nothing property specific.
 
+pub mod builder_stage;
 pub mod cli;
 pub mod fixtures;
 pub mod report;
